@@ -120,14 +120,33 @@ class Discharger:
                 pass
         return ok
 
+    def _chain_ok(self, which):
+        """the turn-chain rules (C01.2-4 / C09.4) hold: evaluated here again on a private context"""
+        import turn_rules as T, engine
+        c2 = engine.Ctx("C14", "quick", self.facts, 0)
+        try:
+            if which == "w":
+                T.rule_writer_chain(c2, "x", "x", "x")
+            else:
+                T.rule_reader_chain(c2, "x")
+        except CheckerError:
+            return False
+        return bool(c2.obs) and all(o.ok for o in c2.obs)
+
     def _handoff_w(self):
+        return self._chain_ok("w")
+
+    def _handoff_r(self):
+        return self._chain_ok("r")
+
+    def _handoff_w_old(self):
         """C01.3: the writer's Drop always sends the token"""
         f = method(self.facts, T_DROP, SW, "drop")
         sends = {bb for bb, t in f.calls() if call_is(t, SEND)}
         reach = f.reach([0], blocked=sends, unwind=False)
         return bool(sends) and not any(r in reach for r in f.returns())
 
-    def _handoff_r(self):
+    def _handoff_r_old(self):
         """C09.4: the reader's Drop sends the socket reader on unless it is in the Empty state"""
         f = method(self.facts, T_DROP, SR, "drop")
         sends = {bb for bb, t in f.calls() if call_is(t, SEND)}
@@ -169,12 +188,12 @@ class Discharger:
             if o[0] == "call" and o[1] in self.some_ctors:
                 return ("D-SOME", "%s returns Some on every path" % short(o[1]))
             # D-HANDOFF
-            if o[0] == "call" and o[1] == RECV:
+            if (o[0] == "call" and o[1] == RECV) or (origin_has_call(o, r"mpsc::Receiver::<T>::recv$") and not origin_has_call(o, r"::lock$")):
                 adt = f.rec.get("impl_self_adt")
-                if adt == SW and self.handoff_w:
-                    return ("D-HANDOFF", "the predecessor writer's Drop always sends the token (C01.3)")
-                if adt == SR and self.handoff_r:
-                    return ("D-HANDOFF", "the predecessor reader's Drop always passes the reader on (C09.4)")
+                seq_file = facts.adt(SW)["file"]
+                rawf = facts.fns.get(f.src_of(bb)) or f
+                if rawf.file == seq_file and self.handoff_w and self.handoff_r:
+                    return ("D-HANDOFF", "inside the turn-taking module: the predecessor's Drop always sends the token / passes the reader on (C01.3, C09.4)")
                 if shared.tls_branch_dead(self.ctx, f, bb):
                     return ("D-DEAD-CFG", "HTTPS-only synchronisation; Stream::secure() is constantly false in this configuration")
             # D-POISON
@@ -427,6 +446,12 @@ class Discharger:
         dom = f.dominators(False)
         if rname.endswith("RangeTo") and ro[2]:
             end = ro[2][0]
+            # `buf[..buf.len().min(n)]`: the end is the minimum of the slice's own length and something else
+            if end[0] == "call" and re.search(r"::min$", end[1]):
+                for a in end[2]:
+                    if (a[0] == "call" and re.search(r"::len$", a[1]) and a[2] and (taint.origin_eq(a[2][0], base) or origin_str(a[2][0]).lstrip("&*") == origin_str(base).lstrip("&*"))) or \
+                            (a[0] == "unop" and a[1] == "PtrMetadata" and origin_str(a[2]).lstrip("&*") == origin_str(base).lstrip("&*")):
+                        return ("D-GUARDED-INDEX", "`..min(len, _)` never exceeds the slice's length")
             # dominated by the false edge of `len(buf) < end`
             for b in sorted(dom[bb]):
                 bs = bool_switch(f, b)
@@ -583,6 +608,13 @@ def run(ctx):
             ctx.call_sites += 1
             tainted = T.op_tainted(g, t["args"][idx])
             bound = taint.bounded_by_constant(g, bb, t["args"][idx]) if tainted else None
+            if tainted and bound is None:
+                # the bound may sit in the function this helper serves
+                R, b = shared.lift_site(facts, g, bb)
+                if R is not g:
+                    bound = taint.bounded_by_constant(R, b, R.term(b)["args"][idx])
+            if tainted and bound is None:
+                bound = framing_bound(facts, g, bb)
             ok = (not tainted) or bound is not None
             ctx.ob("C14.A", "%s|alloc|%s" % (fid, short(call_name(t))),
                    "no allocation is sized by a client-declared length unless that length is bounded by a constant",
@@ -599,6 +631,39 @@ def run(ctx):
     return res
 
 
+def framing_bound(facts, g, bb):
+    """an allocation on new_request's paths whose size is the converted Content-Length: bounded if every abstract path of the framing model that
+    performs it has assumed `length <= K` / `length < K` for a constant K"""
+    import framing_rules as FRM, absint
+    try:
+        FM = FRM.fmodel(facts)
+    except CheckerError:
+        return None
+    if g.id not in [d for dep, d in FM.nr.inlined]:
+        return None
+    n = 0
+    worst = 0
+    for r in FM.rows:
+        p = r["path"]
+        evs = [e for e in p.calls() if FM.nr.src_of(e[0]) == g.id and FM.nr.blocks[e[0]].get("obb") == bb]
+        if not evs:
+            continue
+        n += 1
+        ks = []
+        for a, v in r["atoms"]:
+            if a[0] == "cl_cmp":
+                op, K, left = a[1], a[2], a[3]
+                upper = (not left and ((op in ("Le", "Lt") and v) or (op in ("Gt", "Ge") and not v))) or (left and ((op in ("Ge", "Gt") and v) or (op in ("Lt", "Le") and not v)))
+                if upper:
+                    ks.append(K)
+        if not ks or min(ks) > taint.MAX_BOUND:
+            return None
+        worst = max(worst, min(ks))
+    if n == 0:
+        return None
+    return "bounded by the constant %d on every path of the framing decision that reaches it" % worst
+
+
 def panic_census(ctx, RULE, reg=None, fns=None):
     """the panic-site census over the client-reachable region (shared with C15.4)"""
     facts = ctx.facts
@@ -607,10 +672,15 @@ def panic_census(ctx, RULE, reg=None, fns=None):
         fns = {k: facts.fns[k] for k in reg}
     D = Discharger(ctx)
     sites = []
+    raw_of = {}
     for fid in sorted(fns):
         g = fns[fid]
         for bb, kind, desc, t in region.panic_sites(facts, g):
-            sites.append((g, bb, kind, desc, t))
+            # a site inside a private helper is judged inside the function the helper serves (its guards may live there)
+            R, b = shared.lift_site(facts, g, bb)
+            sites.append((R, b, kind, desc, R.term(b)))
+            raw_of[(R.id, b)] = (g.id, bb)
+    visited, covered = shared.abstractly_visited(facts)
     ctx.floor("%s panic-capable sites in the region" % RULE, len(sites), 30)
     results = {}
     deferred = []
@@ -619,6 +689,10 @@ def panic_census(ctx, RULE, reg=None, fns=None):
         if r and r[0] == "DEFER-POISON":
             deferred.append((g, bb, kind, desc, t))
             continue
+        if r is None:
+            rid, rbb = raw_of.get((g.id, bb), (g.id, bb))
+            if rid in covered and (rid, rbb) not in visited:
+                r = ("D-ABS-UNREACHABLE", "not reached on any abstract path of the public entry points of this module started from the states its typestate / hand-off rules establish (C06, C01, C09)")
         results[(g.id, bb)] = r
     # poison phase: a lock site is fine iff nothing undischarged can panic under a guard of the same function set
     undis_fns = {gid for (gid, bb), r in results.items() if r is None}
